@@ -1,6 +1,6 @@
 (* Runner entry points: one number per executable model function.  The Python
    harness reads the "(* ENTRY n name *)" comments to build its name table. *)
-From HX Require Import Model.Base Model.Cell Model.EmitterEntry Model.Serial Model.DateFns Model.Comparator Model.Value Model.Logic Model.Lookup Model.Text Model.Operators Model.ErrorFlow.
+From HX Require Import Model.Base Model.Cell Model.EmitterEntry Model.Serial Model.DateFns Model.Comparator Model.Value Model.Logic Model.Lookup Model.Text Model.Operators Model.ErrorFlow Model.Rounding Model.Radix.
 
 Definition dispatch (e : Z) (a : list Z) : list Z :=
   match e with
@@ -27,5 +27,7 @@ Definition dispatch (e : Z) (a : list Z) : list Z :=
   | 1501 => e_text a        (* ENTRY 1501 text *)
   | 601 => e_arith a        (* ENTRY 601 arith *)
   | 801 => e_errflow a      (* ENTRY 801 errflow *)
+  | 1701 => e_rounding a    (* ENTRY 1701 rounding *)
+  | 1702 => e_radix a       (* ENTRY 1702 radix *)
   | _ => [-999]
   end.
